@@ -24,8 +24,13 @@
     dispatch on it are the text regenerated from their `switch (self->current_char)` statements.
 -/
 import CatVerif.Proofs.Quiesce
-import CatVerif.Proofs.Setters
-import CatVerif.Proofs.Readers
+import CatVerif.Proofs.Setters.Reset
+import CatVerif.Proofs.Setters.Prepare
+import CatVerif.Proofs.Setters.Flush
+import CatVerif.Proofs.Setters.HoldSet
+import CatVerif.Proofs.Readers.Frame
+import CatVerif.Proofs.Readers.Name
+import CatVerif.Proofs.Readers.Ack
 namespace Cat
 open St
 
